@@ -16,6 +16,7 @@ import (
 	sdk "github.com/cosmos/cosmos-sdk/types"
 	"github.com/ethereum/go-ethereum/core/types/goattypes"
 	goatcrypto "github.com/goatnetwork/goat/pkg/crypto"
+	relayertypes "github.com/goatnetwork/goat/x/relayer/types"
 	"goatverif/project"
 	"goatverif/sim"
 	"goatverif/tracew"
@@ -62,6 +63,7 @@ type RelTx struct {
 	F     Ev
 	Sig   []byte // vote signature (for the accumulator)
 	Vid   int
+	Votes *relayertypes.Votes
 }
 
 // BlockPlan is what a driver wants in the next block.
@@ -245,7 +247,7 @@ func (s *Session) relView(st *project.RelayerState) Ev {
 		"proposer": st.Proposer, "voters": st.Voters, "epoch": st.Epoch, "lastElected": st.LastElected,
 		"accepted": st.Accepted, "rec": st.Rec, "onQ": st.OnQ, "offQ": st.OffQ, "seq": st.Seq,
 		"randao": rd, "pubkeys": st.Pubkeys, "accounts": st.Accounts, "unknown": st.Unknown,
-		"bridge": project.StoreDigest(s.C, "bitcoin"),
+		"bridge": project.StoreDigest(s.C, "bitcoin"), "tip": st.Tip, "curKey": st.CurKey,
 	}
 }
 
